@@ -35,6 +35,7 @@
 
 #include <dispenso/platform.h>
 #include <dispenso/util.h>
+#include <dispenso/detail/verif_hooks.h>
 
 namespace dispenso {
 
@@ -367,21 +368,27 @@ class MpmcRingBuffer {
         std::is_nothrow_move_assignable<T>::value,
         "MpmcRingBuffer::try_pop(T&) requires a nothrow-move-assignable T; "
         "use try_pop() or try_pop_into() for nothrow-move-constructible-only types");
+    DISPENSO_VERIF_POINT("mpmc.pop.head_load", &head_);
     size_t head = head_.load(std::memory_order_relaxed);
     // Fast empty-check: a relaxed tail load is much cheaper than the acquire
     // slot.seq load below (esp. on weak-memory architectures: ldr vs ldar).
     // Callers that poll many sources for work hit this path constantly.
+    DISPENSO_VERIF_POINT("mpmc.pop.tail_load", &tail_);
     if (head == tail_.load(std::memory_order_relaxed)) {
       return false;
     }
     Slot& slot = slots_[wrapIndex(head)];
+    DISPENSO_VERIF_POINT("mpmc.pop.seq_load", &slot.seq);
     size_t seq = slot.seq.load(std::memory_order_acquire);
     intptr_t diff = static_cast<intptr_t>(seq) - static_cast<intptr_t>(head + 1);
     if (diff == 0) {
+      DISPENSO_VERIF_POINT("mpmc.pop.head_cas", &head_);
       if (head_.compare_exchange_strong(head, head + 1, std::memory_order_relaxed)) {
+        DISPENSO_VERIF_POINT("mpmc.pop.data_read", slot.data);
         T* elem = dataPtr(slot);
         item = std::move(*elem);
         elem->~T();
+        DISPENSO_VERIF_POINT("mpmc.pop.seq_store", &slot.seq);
         slot.seq.store(head + kBufferSize, std::memory_order_release);
         return true;
       }
@@ -411,18 +418,24 @@ class MpmcRingBuffer {
    * @endcode
    */
   OpResult<T> try_pop() {
+    DISPENSO_VERIF_POINT("mpmc.pop.head_load", &head_);
     size_t head = head_.load(std::memory_order_relaxed);
+    DISPENSO_VERIF_POINT("mpmc.pop.tail_load", &tail_);
     if (head == tail_.load(std::memory_order_relaxed)) {
       return {};
     }
     Slot& slot = slots_[wrapIndex(head)];
+    DISPENSO_VERIF_POINT("mpmc.pop.seq_load", &slot.seq);
     size_t seq = slot.seq.load(std::memory_order_acquire);
     intptr_t diff = static_cast<intptr_t>(seq) - static_cast<intptr_t>(head + 1);
     if (diff == 0) {
+      DISPENSO_VERIF_POINT("mpmc.pop.head_cas", &head_);
       if (head_.compare_exchange_strong(head, head + 1, std::memory_order_relaxed)) {
+        DISPENSO_VERIF_POINT("mpmc.pop.data_read", slot.data);
         T* elem = dataPtr(slot);
         OpResult<T> result(std::move(*elem));
         elem->~T();
+        DISPENSO_VERIF_POINT("mpmc.pop.seq_store", &slot.seq);
         slot.seq.store(head + kBufferSize, std::memory_order_release);
         return result;
       }
@@ -446,18 +459,24 @@ class MpmcRingBuffer {
    * @note This operation is lock-free and fail-fast (no retry loop).
    */
   bool try_pop_into(T* storage) {
+    DISPENSO_VERIF_POINT("mpmc.pop.head_load", &head_);
     size_t head = head_.load(std::memory_order_relaxed);
+    DISPENSO_VERIF_POINT("mpmc.pop.tail_load", &tail_);
     if (head == tail_.load(std::memory_order_relaxed)) {
       return false;
     }
     Slot& slot = slots_[wrapIndex(head)];
+    DISPENSO_VERIF_POINT("mpmc.pop.seq_load", &slot.seq);
     size_t seq = slot.seq.load(std::memory_order_acquire);
     intptr_t diff = static_cast<intptr_t>(seq) - static_cast<intptr_t>(head + 1);
     if (diff == 0) {
+      DISPENSO_VERIF_POINT("mpmc.pop.head_cas", &head_);
       if (head_.compare_exchange_strong(head, head + 1, std::memory_order_relaxed)) {
+        DISPENSO_VERIF_POINT("mpmc.pop.data_read", slot.data);
         T* elem = dataPtr(slot);
         new (storage) T(std::move(*elem));
         elem->~T();
+        DISPENSO_VERIF_POINT("mpmc.pop.seq_store", &slot.seq);
         slot.seq.store(head + kBufferSize, std::memory_order_release);
         return true;
       }
@@ -501,12 +520,14 @@ class MpmcRingBuffer {
       count = kBufferSize;
     }
 
+    DISPENSO_VERIF_POINT("mpmc.pushb.tail_load", &tail_);
     size_t tail = tail_.load(std::memory_order_relaxed);
 
     // Validate each slot in the reservation range.
     size_t available = 0;
     for (size_t i = 0; i < count; ++i) {
       Slot& slot = slots_[wrapIndex(tail + i)];
+      DISPENSO_VERIF_POINT("mpmc.pushb.seq_load", &slot.seq);
       size_t seq = slot.seq.load(std::memory_order_acquire);
       intptr_t diff = static_cast<intptr_t>(seq) - static_cast<intptr_t>(tail + i);
       if (diff != 0) {
@@ -518,10 +539,13 @@ class MpmcRingBuffer {
       return 0;
     }
 
+    DISPENSO_VERIF_POINT("mpmc.pushb.tail_cas", &tail_);
     if (tail_.compare_exchange_strong(tail, tail + available, std::memory_order_relaxed)) {
       for (size_t i = 0; i < available; ++i) {
         Slot& slot = slots_[wrapIndex(tail + i)];
+        DISPENSO_VERIF_POINT("mpmc.pushb.data_write", slot.data);
         new (dataPtr(slot)) T(std::move(items[i]));
+        DISPENSO_VERIF_POINT("mpmc.pushb.seq_store", &slot.seq);
         slot.seq.store(tail + i + 1, std::memory_order_release);
       }
       return available;
@@ -539,7 +563,9 @@ class MpmcRingBuffer {
    *       from any thread, but the result is only a hint.
    */
   bool empty() const {
+    DISPENSO_VERIF_POINT("mpmc.empty.head_load", &head_);
     size_t head = head_.load(std::memory_order_relaxed);
+    DISPENSO_VERIF_POINT("mpmc.empty.tail_load", &tail_);
     size_t tail = tail_.load(std::memory_order_relaxed);
     return head == tail;
   }
@@ -553,7 +579,9 @@ class MpmcRingBuffer {
    *       from any thread, but the result is only a hint.
    */
   bool full() const {
+    DISPENSO_VERIF_POINT("mpmc.full.head_load", &head_);
     size_t head = head_.load(std::memory_order_relaxed);
+    DISPENSO_VERIF_POINT("mpmc.full.tail_load", &tail_);
     size_t tail = tail_.load(std::memory_order_relaxed);
     return (tail - head) >= kBufferSize;
   }
@@ -568,7 +596,9 @@ class MpmcRingBuffer {
    *       momentarily exceed capacity() under concurrent modification.
    */
   size_type size() const {
+    DISPENSO_VERIF_POINT("mpmc.size.head_load", &head_);
     size_t head = head_.load(std::memory_order_relaxed);
+    DISPENSO_VERIF_POINT("mpmc.size.tail_load", &tail_);
     size_t tail = tail_.load(std::memory_order_relaxed);
     return tail - head;
   }
@@ -608,16 +638,21 @@ class MpmcRingBuffer {
   // the forwarding adds no runtime cost on the hot path.
   template <typename... Args>
   bool emplaceImpl(Args&&... args) {
+    DISPENSO_VERIF_POINT("mpmc.push.tail_load", &tail_);
     size_t tail = tail_.load(std::memory_order_relaxed);
     Slot& slot = slots_[wrapIndex(tail)];
+    DISPENSO_VERIF_POINT("mpmc.push.seq_load", &slot.seq);
     size_t seq = slot.seq.load(std::memory_order_acquire);
     intptr_t diff = static_cast<intptr_t>(seq) - static_cast<intptr_t>(tail);
     if (diff == 0) {
       // ABA-free: tail_ is a monotonic 64-bit counter, so a successful CAS proves no other
       // producer claimed this position since the load (see "Correctness & ABA-freedom" above).
       // Fail-fast: a single attempt, no retry loop -- contention returns false, not corruption.
+      DISPENSO_VERIF_POINT("mpmc.push.tail_cas", &tail_);
       if (tail_.compare_exchange_strong(tail, tail + 1, std::memory_order_relaxed)) {
+        DISPENSO_VERIF_POINT("mpmc.push.data_write", slot.data);
         new (dataPtr(slot)) T(std::forward<Args>(args)...);
+        DISPENSO_VERIF_POINT("mpmc.push.seq_store", &slot.seq);
         slot.seq.store(tail + 1, std::memory_order_release);
         return true;
       }
